@@ -160,6 +160,14 @@ func (r *persistRunner) dump(where string) string {
 			r.add("C08", "has-vs-get", fmt.Sprintf("%s: key %s Get err=%v Has err=%v", where, hx(k), err, herr))
 		}
 		want, ok := r.ref[string(k)]
+		if ok != (herr == nil) {
+			// Has is a read like Get: it answers from the same logical map (a key whose extensions are stored is still absent)
+			prop, clause := "C08", "has-wrong"
+			if strings.HasPrefix(where, "after reopen") {
+				prop, clause = "C09", "reopen-state"
+			}
+			r.add(prop, clause, fmt.Sprintf("%s: Has(%s) err=%v, acknowledged map holds it: %v", where, hx(k), herr, ok))
+		}
 		if ok != (err == nil) || (ok && !bytes.Equal(want, v)) {
 			prop, clause := "C08", "stale-or-missing-read"
 			if strings.HasPrefix(where, "after reopen") {
